@@ -1,3 +1,75 @@
 import Driver.Common
-/-! stub: replaced by the owner of this driver -/
-def main : IO Unit := Driver.run () (fun s _ => (s, "bad-op"))
+import ScionVerif.Model.SnapFilter
+import ScionVerif.Spec.SnapFilter
+/-!
+line-protocol driver for the SNAP ingress filter model (C08)
+
+```
+check <hex datagram> <peer>            -> dispatch <viewlen> | malformed <class> | badsrc <viewlen> <ptr> | badpath <viewlen> <pt> | panic
+step  <hex datagram> <peer> <local>    -> dispatch <hex view> | reply <hex packet> | encode-error | none | panic
+spec  <hex datagram> <peer>            -> accept <packetlen> | malformed | badsrc | badpath      (independent procedure)
+const                                  -> the generated constants the harness cross-checks
+```
+`<peer>`, `<local>` = `4:<8 hex digits>` or `6:<32 hex digits>` (any even number of digits is accepted and modelled).
+-/
+open ScionVerif.SnapFilter ScionVerif.Generated.SnapFilter Driver
+
+def parseIp (s : String) : Option Ip :=
+  match s.splitOn ":" with
+  | ["4", h] => (parseHex h).map Ip.v4
+  | ["6", h] => (parseHex h).map Ip.v6
+  | _ => none
+
+def whereLabel : Where → String
+  | .commonHeader => "CommonHeader"
+  | .addressHeader => "AddressHeader"
+  | .pathMeta => "PathMeta"
+  | .path => "path"
+  | .totalHeader => "TotalHeader"
+
+def errLabel : ParseErr → String
+  | .tooSmall w r a => s!"too_small:{whereLabel w}:{r}:{a}"
+  | .unsupportedVersion => "UnsupportedVersion"
+  | .invalidHeaderLength => "InvalidHeaderLength"
+
+def verdictStr : Verdict → String
+  | .dispatch v => s!"dispatch {v.length}"
+  | .malformed e => s!"malformed {errLabel e}"
+  | .badSource v off => s!"badsrc {v.length} {off}"
+  | .badPathType v pt => s!"badpath {v.length} {pt}"
+  | .panic => "panic"
+
+def outcomeStr (o : Outcome) : String :=
+  if o.panicked then "panic"
+  else if o.encodeFailed then "encode-error"
+  else match o.dispatched, o.replies with
+    | [v], [] => s!"dispatch {toHex v}"
+    | [], [r] => s!"reply {toHex r}"
+    | [], [] => "none"
+    | _, _ => "multiple"
+
+def toPeer : Ip → ScionVerif.Spec.SnapFilter.Peer
+  | .v4 o => .v4 o
+  | .v6 o => .v6 o
+
+def specStr (d : List UInt8) (p : Ip) : String :=
+  match ScionVerif.Spec.SnapFilter.classify d (toPeer p) with
+  | .accept => s!"accept {ScionVerif.Spec.SnapFilter.packetLen d}"
+  | .malformed => "malformed"
+  | .badSource => "badsrc"
+  | .badPathType => "badpath"
+
+def step (st : Unit) : List String → Unit × String
+  | ["check", hx, p] => match parseHex hx, parseIp p with
+    | some d, some ip => (st, verdictStr (inboundCheck d ip))
+    | _, _ => (st, "bad-op")
+  | ["step", hx, p, l] => match parseHex hx, parseIp p, parseIp l with
+    | some d, some ip, some loc => (st, outcomeStr (gatewayStep d ip loc))
+    | _, _, _ => (st, "bad-op")
+  | ["spec", hx, p] => match parseHex hx, parseIp p with
+    | some d, some ip => (st, specStr d ip)
+    | _, _ => (st, "bad-op")
+  | ["const"] => (st, s!"buf {PACKET_BUF_SIZE} max {ScionVerif.Generated.Scmp.SCMP_ERROR_MAX_PACKET_SIZE} maxhdr {MAX_HEADER_SIZE} common {COMMON_SIZE}")
+  | _ => (st, "bad-op")
+
+def main : IO Unit := Driver.run () step
